@@ -10,6 +10,7 @@ from harness.gen import configs, corpus, mutants
 from harness.oracles import common, fixprops
 
 LEVEL = "exploration"
+SEED_SPACE = {"quick": 32, "thorough": 4}
 RULE = (
     "(a) cases = (accepted text [every fixture as is; Hypothesis-drawn re-layouts], style in {none, jcl, indent_only}, generated configuration with "
     "documented option values; plus, per rule option, each documented value on the rule's own fixtures): the real rule_list.fix() and "
@@ -240,7 +241,7 @@ def _atheris(case, tier):
     env["VERIF_REPO"] = vsgapi.REPO
     env["VERIF_FUZZ_GUARD"] = "30"
     env.pop("VERIF_FUZZ_COLLECT", None)
-    p = subprocess.run([sys.executable, os.path.join(vsgapi.VERIF, "harness", "fuzz", "classify_atheris.py"), "-runs=%d" % case["runs"], "-seed=%d" % (1000 + case["seed"] + int(os.environ.get("VERIF_SEED", "1")) * 16), "-max_len=64", "-timeout=600"], cwd=d, env=env, capture_output=True, timeout=3000)
+    p = subprocess.run([sys.executable, os.path.join(vsgapi.VERIF, "harness", "fuzz", "classify_atheris.py"), "-runs=%d" % case["runs"], "-seed=%d" % (1000 + case["seed"] + (int(os.environ.get("VERIF_SEED", "1")) % 4) * 16), "-max_len=64", "-timeout=600"], cwd=d, env=env, capture_output=True, timeout=3000)
     err = p.stderr.decode("utf-8", "replace")
     stats = {}
     for line in err.split("\n"):
